@@ -105,7 +105,7 @@ REQUIRED_LABELS = [l for l in [
     "periodic:negative", "periodic:exact-multiple", "periodic:tiny", "periodic:huge", "periodic:period0", "periodic:invalid",
     "periodic:period-not-f32", "periodic:attr-read",
     "mask:concave", "mask:convex", "mask:cw", "mask:ccw", "mask:inside", "mask:outside", "mask:n=3", "mask:n=4", "mask:dart",
-    "mask:allrot", "mask:form:list", "mask:form:tuple", "mask:form:ndarray", "mask:form:f32", "mask:form:int", "mask:form:fortran",
+    "mask:allrot", "mask:form:list", "mask:form:tuple", "mask:form:ndarray", "mask:form:f32", "mask:form:int",
     "mask:form:strided", "mask:caller-mutates",
     "samplers:n=1", "samplers:n=2", "samplers:non-cubic", "samplers:nx!=nz", "samplers:invalid",
     "samplers:form:list", "samplers:form:tuple", "samplers:form:ndarray", "samplers:form:f32", "samplers:form:int",
@@ -888,7 +888,9 @@ _TEMPLATES = {
     "dart": [[0, 0], [4, 1], [0, 3], [1, 1]],
     "dart2": [[0, 0], [2, 1], [4, 0], [2, 5]],
 }
-_VFORMS = ["list", "tuple", "ndarray", "f32", "int", "fortran", "strided"]
+# no Fortran-ordered float64 array: PolygonMask2D rejects it (ValueError "ndarray is not C-contiguous"); the in-repo caller
+# efit.pyx documents "polygon mask requires an Nx2 array and it must be c contiguous" and converts before the call
+_VFORMS = ["list", "tuple", "ndarray", "f32", "int", "strided"]
 
 
 @st.composite
@@ -897,7 +899,7 @@ def mask_strategy(draw):
     cx, cy = draw(st.floats(-10, 10)), draw(st.floats(-10, 10))
     scale = 10.0 ** draw(st.floats(-3, 3))
     th0 = draw(st.floats(0, 2 * math.pi))
-    kind = draw(st.sampled_from(["star", "star", "small", "small", "dart", "convex", "template"]))
+    kind = draw(st.sampled_from(["star", "star", "star", "small", "dart", "convex", "template", "template"]))
     if vf == "int":
         # integer vertices: an integer template, shifted and scaled by integers
         name = draw(st.sampled_from(sorted(_TEMPLATES)))
